@@ -745,6 +745,8 @@ func (w *walker) stmt(s ast.Stmt, rest []ast.Stmt) (nodes []Node, stop bool) {
 				lp.Bound = nil
 				lp.Cond = v.Cond
 			}
+		} else if lx := listIteration(v); lx != nil {
+			lp.Range = lx // for e := X.Front(); e != nil; e = e.Next(): X.Len() iterations
 		} else if call, ok := v.Cond.(*ast.CallExpr); ok {
 			if sel, ok := call.Fun.(*ast.SelectorExpr); ok && sel.Sel.Name == "HasMoreElements" {
 				lp.Enum = sel.X
@@ -835,6 +837,38 @@ func containsBreak(body *ast.BlockStmt) bool {
 	}
 	visit(body, false)
 	return found
+}
+
+// listIteration recognises `for e := X.Front(); e != nil; e = e.Next()` and returns X.
+func listIteration(f *ast.ForStmt) ast.Expr {
+	init, ok := f.Init.(*ast.AssignStmt)
+	if !ok || len(init.Lhs) != 1 || len(init.Rhs) != 1 {
+		return nil
+	}
+	call, ok := init.Rhs[0].(*ast.CallExpr)
+	if !ok {
+		return nil
+	}
+	sel, ok := call.Fun.(*ast.SelectorExpr)
+	if !ok || sel.Sel.Name != "Front" {
+		return nil
+	}
+	be, ok := f.Cond.(*ast.BinaryExpr)
+	if !ok || be.Op != token.NEQ {
+		return nil
+	}
+	post, ok := f.Post.(*ast.AssignStmt)
+	if !ok || len(post.Rhs) != 1 {
+		return nil
+	}
+	pc, ok := post.Rhs[0].(*ast.CallExpr)
+	if !ok {
+		return nil
+	}
+	if ps, ok := pc.Fun.(*ast.SelectorExpr); !ok || ps.Sel.Name != "Next" {
+		return nil
+	}
+	return sel.X
 }
 
 // canonicalCounter: for i := 0; i < N; i++ with i not assigned in the body.
